@@ -545,12 +545,26 @@ def parse_mir(text):
         else:
             m = _CONST_HEAD.match(l)
             if m:
+                body = l[len(m.group(1)) + 1:-4]          # "NAME: TYPE"
+                depth = 0
+                k = None
+                for j, ch in enumerate(body):
+                    if ch == '<':
+                        depth += 1
+                    elif ch == '>' and body[j - 1] != '-':
+                        depth -= 1
+                    elif depth == 0 and body.startswith(': ', j):
+                        k = j
+                        break
+                if k is None:
+                    i += 1
+                    continue
                 f = Fn()
-                f.name = m.group(2)
+                f.name = body[:k]
                 f.kind = 'const'
                 f.nargs = 0
                 f.arg_types = []
-                f.ret_type = m.group(3)
+                f.ret_type = body[k + 2:]
                 mp = _PROMOTED.match(f.name)
                 if mp:
                     f.promoted_of = mp.group(1)
